@@ -87,6 +87,12 @@ def mapFind (k : Str) : Map → Option Str
   | [] => none
   | (k', v') :: m => if k == k' then some v' else mapFind k m
 
+/-- one round of the final loop of multipleKeyvals (KeyvalTools.cpp:56-62) -/
+def kvStep (m : Map) (tok : Str) : Option Map :=
+  match singleKeyval tok ['='] with
+  | none => none
+  | some (k, v) => some (mapInsert (trim k) (trim v) m)
+
 /-- KeyvalTools::multipleKeyvals (KeyvalTools.cpp:23-64); `m0` is the map passed in -/
 def multipleKeyvals (desc : Str) (m0 : Map) (split : Str) (nestedMode : Bool) : Option Map :=
   match tokensOf split nestedMode desc with
@@ -95,10 +101,7 @@ def multipleKeyvals (desc : Str) (m0 : Map) (split : Str) (nestedMode : Bool) : 
     match mergeEq toks [] with
     | none => none
     | some toks' =>
-      toks'.foldlM (fun (m : Map) tok =>
-        match singleKeyval tok ['='] with
-        | none => none
-        | some (k, v) => some (mapInsert (trim k) (trim v) m)) m0
+      toks'.foldlM kvStep m0
 
 /-- the common head of changeKeyvals / parseProcedure (KeyvalTools.cpp:68-84, 134-151):
 `none` = throws, `some none` = no parenthesis at all, `some (some (name, inner))` otherwise -/
@@ -128,6 +131,18 @@ def parseProcedure (desc : Str) : Option (Str × Map) :=
     | none => none
     | some m => some (name, m)
 
+/-- one round of the final loop of changeKeyvals (KeyvalTools.cpp:113-127); the state is
+(`it == tokens.begin()`, `newDesc`) -/
+def chgStep (newkv : Map) (split : Str) (st : Bool × Str) (tok : Str) : Option (Bool × Str) :=
+  match singleKeyval tok ['='] with
+  | none => none
+  | some (k, _) =>
+    let key := trim k
+    let sep := if st.1 then [] else split
+    match mapFind key newkv with
+    | some nv => some (false, st.2 ++ sep ++ key ++ '=' :: nv)
+    | none => some (false, st.2 ++ sep ++ tok)
+
 /-- KeyvalTools::changeKeyvals (KeyvalTools.cpp:66-132) -/
 def changeKeyvals (desc : Str) (newkv : Map) (split : Str) (nestedMode : Bool) : Option Str :=
   match splitProcedure desc with
@@ -140,16 +155,7 @@ def changeKeyvals (desc : Str) (newkv : Map) (split : Str) (nestedMode : Bool) :
       match mergeEq toks [] with
       | none => none
       | some toks' =>
-        -- (first?, text so far)
-        (toks'.foldlM (fun (st : Bool × Str) tok =>
-          match singleKeyval tok ['='] with
-          | none => none
-          | some (k, _) =>
-            let key := trim k
-            let sep := if st.1 then [] else split
-            match mapFind key newkv with
-            | some nv => some (false, st.2 ++ sep ++ key ++ '=' :: nv)
-            | none => some (false, st.2 ++ sep ++ tok)) (true, name ++ ['('])).map (fun (st : Bool × Str) => st.2 ++ [')'])
+        (toks'.foldlM (chgStep newkv split) (true, name ++ ['('])).map (fun (st : Bool × Str) => st.2 ++ [')'])
 
 /-- a procedure written out: `name(k1=v1,k2=v2,…)` -/
 def renderArgs : List (Str × Str) → Str
